@@ -5,7 +5,8 @@ LEAN_MODULE = ["Urandom.Props.C04", "Urandom.Props.C04T", "Urandom.Props.C04D", 
 RULE = ("requests: 10 integer types x {try, sampler, new, from, Random::range} x range classes (full type, one wide, sign crossing, empty/reversed, "
         "touching the type's ends, ~half the type, power of two, random) x words placed AT the theoretical acceptance thresholds (v0-1, v0, v0+q-1, v0+q, "
         "a rejected word followed by an accepted one) computed from the Lemire interval theorem; Random::index and Dice likewise. "
-        "non-trivial = the range is non-empty and at least one word is scripted, or the range is empty (error path); distinct = distinct request line")
+        "non-trivial = the range is non-empty and at least one word is scripted, or the range is empty (error path); distinct = distinct request line"
+        " Since round 9: the sampler paths via=serde / via=serdesampler (object restored from its serialised form before sampling), also in the exact preimage counts.")
 ASSUMPTIONS = ["64-bit target: isize/usize use the 64-bit instantiation; the 32-bit instantiations are modelled, not run",
                "uniformity is proved for the model (Lemire interval theorem); on the implementation it is observed through agreement with the model on threshold words"]
 
